@@ -20,7 +20,7 @@ RULE = ("case = (key, prefix, allow_unicode_keys, path); path in helper (check_k
         "248..252 from 1/2/3/4-byte UTF-8 characters; prefix lengths 0..250 crossing 250 at every split; str and "
         "bytes prefixes. Hypothesis: random keys/prefixes. Oracle: an independent predicate (encode, prepend, <=250 "
         "bytes, none of the 7 forbidden bytes); accepted => returned/transmitted key == prefix+encoded; rejected => "
-        "MemcacheIllegalInputError - also with ignore_exc=True on Client and HashClient, whose key check sits outside the handlers that turn failures into misses (PooledClient's read wrappers swallow every exception under ignore_exc by design, so that combination is not generated). The client's data `encoding` option (ascii/utf-8/latin-1) is varied as well: it must not influence which keys are legal. Keys whose prefixed form is empty are excluded (C02 covers them). Same-object histories: sequences of 2-3 validations on ONE client object, each token used as a key (client's prefix) or as a `stats` argument (validated with an empty prefix), through Client.check_key(key, prefix) and over the wire on Client/PooledClient/HashClient - the verdict may depend on the token and the prefix only, not on what the object validated before. Non-trivial: "
+        "MemcacheIllegalInputError - also with ignore_exc=True on Client and HashClient, whose key check sits outside the handlers that turn failures into misses (PooledClient's read wrappers swallow every exception under ignore_exc by design, so that combination is not generated). The client's data `encoding` option (ascii/utf-8/latin-1) is varied as well: it must not influence which keys are legal. Keys whose prefixed form is empty are excluded (C02 covers them). Server unreachable: twelve operations (stores, reads, multi-key) with legal and illegal keys while the server refuses connections or times out - an illegal key is still rejected with MemcacheIllegalInputError, before anything is written. Same-object histories: sequences of 2-3 validations on ONE client object, each token used as a key (client's prefix) or as a `stats` argument (validated with an empty prefix), through Client.check_key(key, prefix) and over the wire on Client/PooledClient/HashClient - the verdict may depend on the token and the prefix only, not on what the object validated before. Non-trivial: "
         "the key contains a forbidden or non-ASCII byte, or prefix+key is within 2 bytes of 250.")
 MANIFEST = {
     "category": "exploration",
@@ -232,6 +232,44 @@ def boundary_cases(tier, seed):
             yield ("k" * klen, "P" * plen, bool(plen & 1), ["client", "pooled", "wire-client", "wire-pooled", "wire-hash"][plen % 5])
 
 
+# ---- an illegal key is an illegal key whatever state the server is in ------------------------------------------------
+
+DOWN_OPS = ["get", "set", "add", "delete", "incr", "touch", "gets", "append", "cas", "set_many", "get_many", "delete_many"]
+
+
+def down_cases(tier, seed):
+    keys = [b"bad key", "bad key", b"k\r\nflush_all", b"x" * 251, "\u00e9", b"k\x00", b"\t", "fine", b"fine", "k" * 250]
+    for key in keys:
+        for kind in ("client", "pooled", "hash", "hash-pooled"):
+            for opn in DOWN_OPS:
+                for how in ("refused", "timeout"):
+                    for pfx in (b"", b"p:"):
+                        yield (key, kind, opn, how, pfx)
+
+
+def check_down(case):
+    key, kind, opn, how, pfx = case
+    env = Env()
+    env.server.down = how
+    c = env.client(kind, key_prefix=pfx, default_noreply=False)
+    want = spec(key, pfx, False)
+    args = {"get": (key,), "gets": (key,), "delete": (key,), "set": (key, b"v"), "add": (key, b"v"), "append": (key, b"v"), "incr": (key, 1), "touch": (key, 5),
+            "cas": (key, b"v", b"1"), "set_many": ({"good": b"1", key: b"2"},), "get_many": (["good", key],), "delete_many": (["good", key],)}[opn]
+    if kind.startswith("hash") and opn in ("get_many", "delete_many", "set_many") and want is None:
+        return False, ["hash-multi-skipped"]        # (HashClient works key by key: C02's carve-out)
+    r = env.call(getattr(c, opn), *args)
+    desc = "%s(%r%s) on %s with prefix %r while the server is unreachable (%s)" % (opn, key if len(key) < 30 else (key[:5], len(key)), ", ..." if len(args) > 1 else "", kind, pfx, how)
+    sent = any(e[3] == "sendall" and e[4] for e in env.net.log)
+    if want is None:
+        if not (r[0] == "exc" and isinstance(r[1], MemcacheIllegalInputError)):
+            raise Violation(["server-down", "wrong-rejection", opn, type(r[1]).__name__ if r[0] == "exc" else "returned"], "an illegal key was answered with %r, not with MemcacheIllegalInputError: %s" % (r, desc))
+        if sent:
+            raise Violation(["server-down", "sent-before-reject", opn], "bytes were written although the key is illegal: %s" % desc)
+    elif r[0] == "exc" and isinstance(r[1], MemcacheIllegalInputError):
+        raise Violation(["server-down", "rejected-legal", opn], "a legal key was rejected with %r: %s" % (r[1], desc))
+    return want is None, ["server-down", opn, "reject" if want is None else "legal"]
+
+
 # ---- the verdict on a key does not depend on what the same object validated before ------------------------------------
 
 H_TOKENS = ["items", b"items", "k" * 245, b"k" * 241, "k\u00e9y", "bad key", b"x" * 250]
@@ -319,6 +357,7 @@ PARTS = [
     Part("full-alphabet-short", "enum", check, cases=full_alphabet_cases, exhaustive=True),
     Part("every-position", "enum", check, cases=position_cases, exhaustive=True),
     Part("length-boundaries", "enum", check, cases=boundary_cases, exhaustive=True),
+    Part("server-unreachable", "enum", check_down, cases=down_cases, exhaustive=True),
     Part("same-object-histories", "enum", check_history, cases=history_cases, exhaustive=True),
     Part("random", "hyp", check, strategy=random_strategy,
          examples={"quick": 1500, "thorough": 60000}, shards={"quick": 4, "thorough": 16}),
